@@ -854,7 +854,11 @@ class ZonalStatistics(AccessorBase):
         if is_dask_collection(xx):
             dask_name = name
             if isinstance(dask_name, str):
-                dask_name = f"{name}-{tokenize(xx.data, zones.data, dtype)}"
+                # everything the blocks are computed from goes into the key
+                token = tokenize(
+                    xx.data, zones.data, num_zones, xx.nodata, zones.nodata, dtype
+                )
+                dask_name = f"{name}-{token}"
 
             chunks = [xx.data.chunks[0], (num_zones,), (2,)]
 
